@@ -349,23 +349,20 @@ pub fn run_rnd_job(job: &Value) {
     }
 }
 
-pub fn replay(f: &Value) -> i32 {
-    let Some(a) = f["felts"].as_array() else { return 2 };
+pub fn run_witness(f: &Value) -> Option<(String, Vec<Panic>)> {
+    let a = f["felts"].as_array()?;
     let v: Vec<BigUint> = a
         .iter()
         .filter_map(|x| x.as_str())
         .filter_map(|s| BigUint::parse_bytes(s.trim_start_matches("0x").as_bytes(), 16))
         .collect();
     let r = run_felts(&v, 5000);
-    println!(
+    let d = format!(
         "extract_sierra_program: {}, sierra_from_felt252s: {}, pipeline: {:?}, inconsistency: {:?}",
         if r.class_ok { "Ok" } else { "Err" },
         if r.codec_ok { "Ok" } else { "Err" },
         r.deep_stage,
         r.inconsistent
     );
-    for p in &r.panics {
-        println!("PANIC in {} at {}: {}", p.at, p.loc, p.msg);
-    }
-    if r.panics.is_empty() && r.inconsistent.is_none() { 0 } else { 1 }
+    Some((d, r.panics))
 }
